@@ -39,8 +39,10 @@ DevAtom(n) == <<"D", n, "", "", "">>
 Key(kind, x1, x2, x3, x4, x5) == <<kind, x1, x2, x3, x4, x5>>
 Eff(kind, x1, x2, x3, x4, v) == <<kind, x1, x2, x3, x4, v>>
 
-NewMachine == [pc |-> 0, reg |-> [k \in 0..17 |-> Z], mem |-> <<>>, st |-> "run", why |-> "",
+\* registers 18.. exist only in the virtual-register machine of C04 (one per virtual name)
+NewMachineN(nr) == [pc |-> 0, reg |-> [k \in 0..nr |-> Z], mem |-> <<>>, st |-> "run", why |-> "",
                sh |-> <<>>, fl |-> FALSE, mv |-> ""]
+NewMachine == NewMachineN(17)
 
 \* ---- environment ---------------------------------------------------------
 EnvHas(env, key) == \E j \in 1..Len(env) : env[j][1] = key
